@@ -35,6 +35,8 @@ import (
 	"testing/synctest"
 	"time"
 
+	"github.com/olareg/olareg"
+	"github.com/olareg/olareg/config"
 	"github.com/olareg/olareg/internal/simrt"
 )
 
@@ -58,6 +60,10 @@ type lPlan struct {
 	TermMs   int64             `json:"term_ms"`  // when the signal is sent; <0: after the clients are done
 	Sig      string            `json:"sig"`      // "term" or "int"
 	Restart  bool              `json:"restart"`  // start a second server on the same storage afterwards
+	// Lib: the settings are given as configuration fields to olareg.New instead of flags to the serve command (only the
+	// fields named in Set are set, the rest is left to the defaults). Extra fields without a flag: "upload-max" (GC.RepoUploadMax),
+	// "no-root" (memory store without a directory)
+	Lib map[string]string `json:"lib,omitempty"`
 	Strat    simrt.Strategy    `json:"strat"`
 	Sched    []uint32          `json:"sched,omitempty"`
 	MapOrder []uint32          `json:"maporder,omitempty"`
@@ -299,6 +305,25 @@ func makePlan(base uint64, tier string, idx int) *lPlan {
 			p.Set["rate-limit"] = fmt.Sprint(r.pick(2, 5))
 		}
 	}
+	if idx%8 == 7 {
+		// the same settings as configuration fields of the library (no command line)
+		p.Lib = map[string]string{"on": "1"}
+		p.Profile += " (library configuration)"
+		delete(p.Set, "port")
+		delete(p.Set, "addr")
+		if v, ok := p.Set["gc-grace-period"]; ok && v == "0s" {
+			delete(p.Set, "gc-grace-period") // (zero is "unset" for the library)
+		}
+		if p.Set["store-type"] == "mem" && r.chance(60) {
+			p.Lib["no-root"] = "1"
+		}
+		if idx%32 == 15 {
+			p.Lib["upload-max"] = r.str("-1", "-1", "-5")
+			p.Set["api-push"] = "true"
+			delete(p.Set, "store-ro")
+			delete(p.Set, "rate-limit")
+		}
+	}
 	// a write protected server cannot be filled through the API: those runs check refusals only
 	p.Addrs = []string{"192.0.2.1"}
 	nOther := r.pick(0, 1, 2, 3)
@@ -317,6 +342,9 @@ func makePlan(base uint64, tier string, idx int) *lPlan {
 	var own []lOp
 	if mode == 2 {
 		own = append(own, lOp{K: "gcprobe"})
+	}
+	if p.Lib["upload-max"] != "" {
+		own = append(own, lOp{K: "manysessions", Ms: int64(r.pick(1100, 1300, 2100))})
 	}
 	n := (6 + r.intn(10)) * scale
 	for i := 0; i < n; i++ {
@@ -778,6 +806,8 @@ func (w *world) ownerOp(op lOp) {
 		w.out.Probes["referrers-read"]++
 	case "gcprobe":
 		w.gcProbe()
+	case "manysessions":
+		w.manySessions(int(op.Ms))
 	}
 }
 
@@ -1121,6 +1151,79 @@ func runPlan(t *testing.T, p *lPlan) (out *runOut) {
 	return
 }
 
+// libConfig: the plan's settings as configuration fields, nothing else set.
+func (w *world) libConfig() config.Config {
+	set := w.p.Set
+	c := config.Config{}
+	c.HTTP.Addr = w.listen
+	c.Storage.StoreType = config.StoreDir
+	if w.set.store == "mem" {
+		c.Storage.StoreType = config.StoreMem
+	}
+	if !(w.set.store == "mem" && w.p.Lib["no-root"] != "") {
+		c.Storage.RootDir = w.dir
+	}
+	bp := func(name string) *bool {
+		if v, ok := set[name]; ok {
+			b := v == "true"
+			return &b
+		}
+		return nil
+	}
+	c.API.PushEnabled, c.API.DeleteEnabled, c.API.Blob.DeleteEnabled = bp("api-push"), bp("api-delete"), bp("api-blob-delete")
+	c.API.Referrer.Enabled, c.Storage.ReadOnly, c.Storage.GC.Untagged = bp("api-referrer"), bp("store-ro"), bp("gc-untagged")
+	c.API.RateLimit = w.set.rate
+	c.API.Warnings = w.set.warnings
+	if _, ok := set["gc-frequency"]; ok {
+		c.Storage.GC.Frequency = w.set.gcFreq
+	}
+	if _, ok := set["gc-grace-period"]; ok {
+		c.Storage.GC.GracePeriod = w.set.gcGrace
+	}
+	if v, ok := w.p.Lib["upload-max"]; ok {
+		c.Storage.GC.RepoUploadMax, _ = strconv.Atoi(v)
+	}
+	return c
+}
+
+// manySessions (library mode, GC.RepoUploadMax negative = "unlimited"): far more sessions than any default would allow
+// stay usable.
+func (w *world) manySessions(n int) {
+	if !w.canPush() {
+		return
+	}
+	base := "/v2/" + repoName
+	var locs []string
+	for i := 0; i < n; i++ {
+		r := w.do(0, "POST", base+"/blobs/uploads/", "", nil, nil, 0, lOp{})
+		if r.refused || r.code == 429 {
+			return
+		}
+		if r.code != 202 {
+			w.viol("config.upload-max", "unlimited: session refused", fmt.Sprintf("GC.RepoUploadMax=%s: opening session %d answered %d", w.p.Lib["upload-max"], i+1, r.code))
+			return
+		}
+		locs = append(locs, r.h.Get("Location"))
+	}
+	for _, i := range []int{0, 1, n / 10, n / 2, n - 1} {
+		u, err := url.Parse(locs[i])
+		if err != nil {
+			continue
+		}
+		r := w.do(0, "GET", u.Path, u.RawQuery, nil, nil, 0, lOp{})
+		if !r.refused && r.code != 429 && r.code != 204 {
+			w.viol("config.upload-max", "unlimited: session discarded", fmt.Sprintf("GC.RepoUploadMax=%s (unlimited): of %d open sessions, session %d answers %d %s", w.p.Lib["upload-max"], n, i+1, r.code, trunc(r.body, 120)))
+			return
+		}
+	}
+	w.out.Probes["many-sessions"]++
+	for _, l := range locs {
+		if u, err := url.Parse(l); err == nil {
+			w.do(0, "DELETE", u.Path, u.RawQuery, nil, nil, 0, lOp{})
+		}
+	}
+}
+
 // session runs one process lifetime: serve, clients, signal, exit.
 func (w *world) session(sim *simrt.Sim, first bool) {
 	p := w.p
@@ -1130,13 +1233,22 @@ func (w *world) session(sim *simrt.Sim, first bool) {
 	abandoned := 0
 	var swg simrt.WaitGroup
 	swg.Add(1)
+	var lib *olareg.Server
+	if p.Lib != nil {
+		lib = olareg.New(w.libConfig())
+		args = []string{"(library)", fmt.Sprint(p.Set), fmt.Sprint(p.Lib)}
+	}
 	sim.GoNamed("serve", "go", func() {
 		defer swg.Done()
-		cmd := newRootCmd()
-		cmd.SetArgs(args)
-		cmd.SetOut(io.Discard)
-		cmd.SetErr(io.Discard)
-		serveErr = cmd.ExecuteContext(context.Background())
+		if lib != nil {
+			serveErr = lib.Run(context.Background())
+		} else {
+			cmd := newRootCmd()
+			cmd.SetArgs(args)
+			cmd.SetOut(io.Discard)
+			cmd.SetErr(io.Discard)
+			serveErr = cmd.ExecuteContext(context.Background())
+		}
 		// the command returned: the process exits at this instant, whatever is still being handled is cut off
 		abandoned = simrt.InFlight()
 		served = true
@@ -1176,6 +1288,17 @@ func (w *world) session(sim *simrt.Sim, first bool) {
 		w.stopping = true
 		if simrt.InFlight() > 0 {
 			w.out.Probes["signal-with-request-in-flight"]++
+		}
+		if lib != nil {
+			// what the embedding program does on a signal
+			swg.Add(1)
+			sim.GoNamed("shutdown", "go", func() {
+				defer swg.Done()
+				if err := lib.Shutdown(context.Background()); err != nil {
+					w.viol("term.exit", "Shutdown error", fmt.Sprintf("Server.Shutdown returned %v", err))
+				}
+			})
+			return
 		}
 		sig := os.Signal(syscall.SIGTERM)
 		if p.Sig == "int" {
@@ -1250,6 +1373,13 @@ func (w *world) session(sim *simrt.Sim, first bool) {
 		w.viol("term.exit", "still listening", "the serve command returned but the listener is still open")
 	}
 	sim.WaitIdle()
+	if p.Lib != nil && w.set.store == "mem" && p.Lib["no-root"] != "" {
+		if n := sim.FS.N; n > 0 {
+			ev := sim.FS.Log[0]
+			w.viol("config.store-type", "memory store without a directory uses the filesystem", fmt.Sprintf("StoreMem with RootDir unset: %d filesystem operations, the first: %s %s", n, ev.Op, ev.Path))
+		}
+		w.out.Probes["mem-without-directory"]++
+	}
 	if w.set.gcFreq > 0 && !w.set.ro {
 		w.markCollectable()
 	}
